@@ -54,11 +54,15 @@ def history_shards(tier, fn, all_scheds=False):
                                 "timeout": 900, "twin": "first", "cover": "first"})
     # an interval that is empty (no ballast) while it is looked up, then refilled; triple toggles of one block without lookups
     for ops, nb, scheds in (("ra", 0, (7, 2)), ("ma", 0, (7, 2)), ("rar", 4, (1,)), ("ara", 4, (1,)), ("ozo", 4, (1,)),
-                            ("ramo", 4, (1,)), ("ramz", 4, (1, 2)), ("maro", 4, (1,))):
+                            ("ramo", 4, (1,)), ("ramz", 4, (1, 2)), ("maro", 4, (1,)), ("ou", 0, (1,)), ("zu", 0, (1,)), ("ozu", 0, (1,))):
         for sched in scheds:
             if all_scheds and sched >= (1 << len(ops)):
                 sched = sched & ((1 << len(ops)) - 1)
             out.append({"fn": fn, "consts": {"ops": ops, "sched": sched, "nb": nb, "b2": 0, "addr": "fixed"}, "timeout": 900, "twin": False, "cover": False})
+    # the same single edits inside an interval whose declared size is 0 (blocks lie outside the extent; interval scope is exact)
+    for ops in ("o", "z", "oz"):
+        for nb in (3, 4):
+            out.append({"fn": fn, "consts": {"ops": ops, "sched": 1, "nb": nb, "b2": 0, "addr": "fixed", "isize": 0}, "timeout": 900, "twin": False, "cover": False})
     # bursts followed by bulk growth of the collection (pending events above the size at queueing time, below it at lookup time)
     for ops in (("ozu", "oou") if tier == "quick" else ("ozu", "oou", "uoz", "zou")):
         if tier == "quick" and not all_scheds:
